@@ -475,6 +475,13 @@ func GenPlan(prop string, seed uint64) *Plan {
 		}
 		p.Knobs["metrics"] = 1
 	}
+	if (p.Ruleset == "fasthotstuff" || p.Knobs["aggqc"] == 1) && mix(p.Inner, 0x71636f72)%2 == 0 {
+		// hook H1: seeded orders of the attested QCs inside VerifyAggregateQC instead of signer order
+		if p.Knobs == nil {
+			p.Knobs = map[string]int{}
+		}
+		p.Knobs["qcorder"] = 1
+	}
 	if prop == "C10" && mix(p.Inner, 0x6c61746d)%3 == 0 {
 		// the servers emulate wide-area latencies (an option of the real server; zero delay here)
 		if p.Knobs == nil {
